@@ -98,6 +98,17 @@ with open(dst, 'w', encoding='utf-8') as f:
 '''
 
 
+def available_languages() -> T.List[str]:
+    """Languages the sandbox has a compiler for (looked up on PATH, nothing asked from meson)."""
+    import shutil
+    res = ['c']
+    if shutil.which('g++') or shutil.which('c++') or shutil.which('clang++'):
+        res.append('cpp')
+    if shutil.which('gfortran') or shutil.which('flang'):
+        res.append('fortran')
+    return res
+
+
 def asm_source(sym: str) -> str:
     """A tiny real x86-64 (AT&T syntax, preprocessed .S) function returning 0."""
     return ('/* generated */\n    .text\n    .globl ' + sym + '\n' + sym + ':\n    xorl %eax, %eax\n    ret\n'
@@ -124,7 +135,10 @@ def failing_subproject(name: str, marker: str, stage: str, via: str) -> T.Tuple[
           f"{M}_lib = library('{M}_lib', 'l.c')",
           f"{M}_ct = custom_target('{M}_ct', output: ['{M}_out.txt', '{M} o$2.dat'], command: [py, '-c', 'pass'], build_by_default: true)",
           f"{M}_nd = executable('{M}_nd', 'm.c', build_by_default: false)",
-          f"{name}_dep = declare_dependency(link_with: {M}_lib)"]
+          f"{name}_dep = declare_dependency(link_with: {M}_lib)",
+          # state other than targets/tests that the subproject registers before it fails
+          f"meson.override_find_program('{M}_prog', {M}_exe)",
+          f"meson.override_dependency('{M}-dep', {name}_dep)"]
     if stage == 'after-targets':
         L.append(f"error('{M} fails after declaring targets')")
     L += [f"test('{M}_test', {M}_exe, args: [{M}_ct], depends: [{M}_nd])",
@@ -142,6 +156,16 @@ def failing_subproject(name: str, marker: str, stage: str, via: str) -> T.Tuple[
     files = {f'subprojects/{name}/meson.build': '\n'.join(L) + '\n',
              f'subprojects/{name}/m.c': 'int main(void) { return 0; }\n',
              f'subprojects/{name}/l.c': f'int {M}_fn(void) {{ return 0; }}\n'}
+    # the parent afterwards asks for what the disabled subproject may have registered and would use it
+    files[f'{M}_user.c'] = 'int main(void) { return 0; }\n'
+    use = (f"\n{name}_p = find_program('{M}_prog', required: false)\n"
+           f"if {name}_p.found()\n"
+           f"  custom_target('{M}_used_prog', output: '{M}_used.h', command: [{name}_p, '@OUTPUT@'], build_by_default: true)\n"
+           f"endif\n"
+           f"{name}_od = dependency('{M}-dep', required: false)\n"
+           f"if {name}_od.found()\n"
+           f"  executable('{M}_used_dep', '{M}_user.c', dependencies: {name}_od)\n"
+           f"endif")
     ver = ", version: '>=99'" if stage == 'version-mismatch' else ''
     if via == 'dependency-fallback':
         line = (f"{name}_d = dependency('c04-not-installed-{name}', fallback: [{mstr(name)}, '{name}_dep'], "
@@ -149,7 +173,7 @@ def failing_subproject(name: str, marker: str, stage: str, via: str) -> T.Tuple[
     else:
         line = (f"{name}_s = subproject({mstr(name)}, required: false{ver})\n"
                 f"assert(not {name}_s.found(), '{name} must be disabled')")
-    return files, line
+    return files, line + use
 
 
 class Item:
@@ -171,11 +195,13 @@ class Item:
         self.soversion: T.Optional[str] = None
         self.deps: T.List[str] = []        # ids of targets this one refers to (informational)
         self.c_like_outputs = False
+        self.lang = 'c'
+        self.has_module = False
         self.lines: T.List[str] = []
 
     def desc(self) -> dict:
         d = {'id': self.id, 'kind': self.kind, 'name': self.name, 'dir': self.dir, 'sp': self.sp,
-             'default': self.default, 'deps': sorted(set(self.deps))}
+             'default': self.default, 'deps': sorted(set(self.deps)), 'lang': self.lang}
         if self.kind == 'custom':
             d['outputs'] = list(self.outputs)
         for k in ('prefix', 'suffix', 'version', 'soversion'):
@@ -248,8 +274,10 @@ def dependency_paths(t: dict, layout: str, default_library: str) -> T.List[str]:
 
 
 class ProjectGen:
-    def __init__(self, rng: random.Random, n_targets: int, odd: float, with_sp: bool, depth2: bool) -> None:
+    def __init__(self, rng: random.Random, n_targets: int, odd: float, with_sp: bool, depth2: bool,
+                 langs: T.Sequence[str] = ('c',)) -> None:
         self.rng = rng
+        self.langs = list(langs)
         self.n_targets = n_targets
         self.odd = odd
         self.files: T.Dict[str, str] = {}
@@ -422,21 +450,43 @@ class ProjectGen:
         return res
 
     # ---------------------------------------------------------------- item generators
-    def c_source(self, it: Item, k: int, main: bool, calls: T.Sequence[str], includes: T.Sequence[str]) -> str:
+    def c_source(self, it: Item, k: int, main: bool, calls: T.Sequence[str], includes: T.Sequence[str],
+                 lang: str = 'c', use_modules: T.Sequence[str] = ()) -> str:
         r = self.rng
+        if lang == 'fortran':
+            return self.fortran_source(it, k, main, use_modules)
+        ext = '.cpp' if lang == 'cpp' else '.c'
         base = r.choice(['src', 'util', 'impl', 'x y', 'möd']) if r.random() < 0.35 else f'{it.id}_{k}'
-        fname = f'{base}_{it.id}.c' if base in ('src', 'util') and r.random() < 0.5 else f'{base}.c'
+        fname = f'{base}_{it.id}{ext}' if base in ('src', 'util') and r.random() < 0.5 else f'{base}{ext}'
         # the same source basename may exist in several dirs; in one dir it must be unique per target
         path = self.path_in(it.sp, it.dir, fname)
         if path in self.files:
-            fname = f'{it.id}_{k}.c'
+            fname = f'{it.id}_{k}{ext}'
+        cdecl = 'extern "C" ' if lang == 'cpp' else ''
         text = ''.join(f'#include "{h}"\n' for h in includes)
-        text += ''.join(f'int {c}(void);\n' for c in calls)
+        text += ''.join(f'{cdecl}int {c}(void);\n' for c in calls)
         if main:
             body = ' + '.join(f'{c}()' for c in calls) or '0'
             text += f'int main(void) {{ return ({body}) * 0; }}\n'
         else:
-            text += f'int fn_{it.id}_{k}(void) {{ return {k}; }}\n'
+            text += f'{cdecl}int fn_{it.id}_{k}(void) {{ return {k}; }}\n'
+        self.add_file(it.sp, it.dir, fname, text)
+        return fname
+
+    def fortran_source(self, it: Item, k: int, main: bool, use_modules: T.Sequence[str]) -> str:
+        """Free-form Fortran: a module per library source (exporting fn_<id>_<k> with C binding), a program for
+        executables; `use` of modules of linked Fortran libraries and of the previous source of the same target."""
+        fname = f'{it.id}_{k}.f90'
+        uses = list(use_modules)
+        if k > 0 and not main and self.rng.random() < 0.6:
+            uses.append(f'mod_{it.id}_{k - 1}')
+        use_lines = ''.join(f'  use {u}\n' for u in uses)
+        if main:
+            text = (f'program main_{it.id}\n{use_lines}  implicit none\n  print *, 0\nend program main_{it.id}\n')
+        else:
+            text = (f'module mod_{it.id}_{k}\n{use_lines}  use iso_c_binding\n  implicit none\ncontains\n'
+                    f"  integer(c_int) function ffn_{it.id}_{k}() bind(C, name='fn_{it.id}_{k}')\n"
+                    f'    ffn_{it.id}_{k} = {k}\n  end function ffn_{it.id}_{k}\nend module mod_{it.id}_{k}\n')
         self.add_file(it.sp, it.dir, fname, text)
         return fname
 
@@ -453,6 +503,9 @@ class ProjectGen:
         libs = self.visible(it.sp, ['static', 'shared', 'library', 'both'])
         link_with: T.List[str] = []
         link_whole: T.List[str] = []
+        lang = r.choice(self.langs) if len(self.langs) > 1 else 'c'
+        it.lang = lang
+        use_modules: T.List[str] = []
         if libs and r.random() < 0.75:
             for lib in r.sample(libs, min(len(libs), r.randint(1, 3))):
                 if lib.kind in ('static', 'both') and r.random() < 0.35:
@@ -464,6 +517,11 @@ class ProjectGen:
                     self.features.add('link_with:' + lib.kind)
                     if lib.sp == it.sp:
                         calls.append(f'fn_{lib.id}_0')
+                    if lang == 'fortran' and lib.lang == 'fortran' and lib.sp == it.sp and lib.has_module:
+                        use_modules.append(f'mod_{lib.id}_0')
+                        self.features.add('fortran:use-module-of-linked-library')
+                if lang != lib.lang:
+                    self.features.add(f'link:{lang}-to-{lib.lang}')
                 it.deps.append(lib.id)
                 if lib.sp != it.sp:
                     self.features.add('uses-subproject-lib')
@@ -515,8 +573,18 @@ class ProjectGen:
             nsrc = 1
             self.features.add('asm-only-library')
         else:
-            own = [self.c_source(it, k, main=(kind == 'exe' and k == 0), calls=calls if k == 0 else [], includes=[])
+            own = [self.c_source(it, k, main=(kind == 'exe' and k == 0), calls=calls if k == 0 else [], includes=[],
+                                 lang=lang, use_modules=use_modules if k == 0 else [])
                    for k in range(nsrc)]
+            it.has_module = lang == 'fortran' and kind != 'exe'
+            if lang != 'c':
+                self.features.add('lang:' + lang)
+                if r.random() < 0.2:
+                    # a mixed-language target: one more source in C
+                    extra_c = f'{it.id}_mixed.c'
+                    self.add_file(it.sp, it.dir, extra_c, f'int mixed_{it.id}(void) {{ return 0; }}\n')
+                    own.append(extra_c)
+                    self.features.add('mixed-language-target')
             if kind != 'exe' and r.random() < 0.06:
                 fn = f'{it.id}_extra.S'
                 self.add_file(it.sp, it.dir, fn, asm_source(f'fn_{it.id}_asm'))
@@ -908,7 +976,8 @@ class ProjectGen:
                 if d == '':
                     pname = 'c04 sp' if sp else 'c04 main'
                     extra = ''
-                    lines.append(f"project({mstr(pname)}, 'c'{extra}, version: '1.0', meson_version: '>=1.0.0')")
+                    langs = ', '.join(mstr(x) for x in self.langs)
+                    lines.append(f"project({mstr(pname)}, {langs}{extra}, version: '1.0', meson_version: '>=1.0.0')")
                     lines.append("py = find_program('python3')")
                     lines.append("gen_tool = files('tools/gen.py')")
                     lines.append("cap_tool = files('tools/cap.py')")
@@ -929,15 +998,25 @@ class ProjectGen:
                 'dirs': {k: v for k, v in self.dirs.items()}}
 
 
-def generate(seed: T.Union[int, str], n_targets: T.Optional[int] = None) -> T.Tuple[T.Dict[str, str], dict]:
+def generate(seed: T.Union[int, str], n_targets: T.Optional[int] = None,
+             langs: T.Optional[T.Sequence[str]] = None) -> T.Tuple[T.Dict[str, str], dict]:
     """A random target-graph project that must configure (in mirror layout; under flat layout
     desc['flat_collision'] says whether two targets share a path)."""
     rng = random.Random(f'c04:{seed}')
     n = n_targets if n_targets is not None else rng.choice([3, 4, 5, 6, 8, 10, 12, 15, 18, 21, 25])
     odd = rng.choice([0.0, 0.15, 0.3, 0.6])
-    g = ProjectGen(rng, n, odd, with_sp=rng.random() < 0.5, depth2=rng.random() < 0.6)
+    with_sp = rng.random() < 0.5
+    depth2 = rng.random() < 0.6
+    # languages: mostly C; sometimes C++ and/or Fortran next to it (mixed-language link chains, Fortran module
+    # scanning / dyndep statements)
+    avail = available_languages() if langs is None else list(langs)
+    x = rng.random()
+    want = ['c'] if x < 0.6 else ['c', 'fortran'] if x < 0.8 else ['c', 'cpp'] if x < 0.9 else ['c', 'cpp', 'fortran']
+    use = [l for l in want if l in avail]
+    g = ProjectGen(rng, n, odd, with_sp=with_sp, depth2=depth2, langs=use)
     g.build()
     d = g.desc()
+    d['langs'] = use
     d['seed'] = str(seed)
     d['n_targets'] = n
     return g.files, d
@@ -955,6 +1034,8 @@ COLLISION_KINDS = [
     'alias-vs-exe-root', 'run-vs-custom-output-root', 'static-vs-library', 'same-basename-flat',
     'object-name-alias', 'subproject-run-name-vs-exe', 'generator-same-output-twice',
     'custom-output-twice-in-one-target', 'shared-vs-library', 'multi-output-custom-one-colliding',
+    'subdir-twice:same-spelling', 'subdir-twice:dot-slash', 'subdir-twice:trailing-slash',
+    'subdir-twice:inner-dot', 'subdir-twice:double-slash', 'subdir-twice:nested-dot', 'subdir-twice:symlink',
 ]
 
 
@@ -978,6 +1059,7 @@ def generate_collision(seed: T.Union[int, str], kind: T.Optional[str] = None) ->
     root_tail: T.List[str] = []
     certain = True
     certain_when: T.Dict[str, str] = {}     # configuration values under which the paths really coincide
+    symlinks: T.Dict[str, str] = {}
     why = ''
     need_root = False
 
@@ -995,6 +1077,23 @@ def generate_collision(seed: T.Union[int, str], kind: T.Optional[str] = None) ->
         why = 'the second of three outputs of a custom target equals the output of another custom target'
         if rng.random() < 0.5:
             body.reverse()
+    elif kind.startswith('subdir-twice:'):
+        # the directory a/ (an executable, a library and a custom target) is entered a second time; every output
+        # path of the second visit is, after path normalisation, a path of the first visit
+        how = kind.split(':', 1)[1]
+        spelling = {'same-spelling': 'a', 'dot-slash': './a', 'trailing-slash': 'a/', 'inner-dot': 'a/.',
+                    'double-slash': 'a//', 'nested-dot': 'a/./b', 'symlink': 'alink'}[how]
+        sub = 'a'
+        body += [f"executable({q}, 'm.c')", f"library({q}, 'l.c')", ct('gen hdr', nm + '.h', ', build_by_default: true')]
+        if how == 'nested-dot':
+            body.append("subdir('b')")
+            files['a/b/meson.build'] = f"executable({q}, 'm.c')\n" + ct('gen b', nm + '_b.h') + '\n'
+            files['a/b/m.c'] = 'int main(void) { return 0; }\n'
+        root_tail.append(f"subdir({mstr(spelling)})")
+        if how == 'symlink':
+            symlinks['alink'] = 'a'
+            certain_when = {'layout': 'flat'}   # a/<x> and alink/<x> are different build paths in mirror layout
+        why = f"the source directory a{'/b' if how == 'nested-dot' else ''} is entered twice, the second time as {spelling!r}"
     elif kind == 'custom-output-like-static-lib':
         body += [f"static_library({q}, 'l.c')", ct('gen lib', f'lib{nm}.a', ', build_by_default: true')]
         why = 'custom target output named like the static library file'
@@ -1117,6 +1216,6 @@ def generate_collision(seed: T.Union[int, str], kind: T.Optional[str] = None) ->
     files['meson.build'] = '\n'.join(lines) + '\n'
     desc = {'targets': [], 'tests': [], 'features': ['collision:' + kind], 'flat_collision': False,
             'collision': {'kind': kind, 'certain': certain, 'certain_when': certain_when, 'why': why, 'dir': sub},
-            'has_subproject': False,
+            'has_subproject': False, 'symlinks': symlinks,
             'seed': str(seed)}
     return files, desc
